@@ -37,6 +37,26 @@ def type_of_decoder(name):
     return name
 
 
+def _through_tuple_field(pv, payload, dbb, didx):
+    """`x = move (t.i)` where t is (at this point) one tuple literal: the operand that literal was built from, with its position
+    (the arguments of an inlined closure call travel as a tuple), or None"""
+    if payload["k"] != "use" or payload["op"]["k"] not in ("copy", "move"):
+        return None
+    pl = payload["op"]["place"]
+    if len(pl["p"]) != 1 or pl["p"][0][0] != "field":
+        return None
+    ds = pv.reaching(pl["l"], dbb, didx)
+    if len(ds) != 1 or -1 in ds:
+        return None
+    _, tbb, tidx, tp = pv._defs[next(iter(ds))]
+    if tidx == "term" or tp["k"] != "aggr" or tp.get("kind") != "tuple":
+        return None
+    i = pl["p"][0][1]
+    if not isinstance(i, int) or i >= len(tp["ops"]):
+        return None
+    return tp["ops"][i], tbb, tidx
+
+
 def arms(pv, op, bb, idx, depth=0):
     """definitions feeding an operand: list of (term, def_bb).  Follows chains of plain copies."""
     if op["k"] not in ("copy", "move") or op["place"]["p"] or depth > 6:
@@ -55,6 +75,10 @@ def arms(pv, op, bb, idx, depth=0):
                 and payload["place"]["p"][0][0] == "deref":
             # `&*r` is `r`
             out.extend(arms(pv, {"k": "copy", "place": {"l": payload["place"]["l"], "p": []}}, dbb, didx, depth + 1))
+            continue
+        tf = _through_tuple_field(pv, payload, dbb, didx) if didx != "term" else None
+        if tf is not None:
+            out.extend(arms(pv, tf[0], tf[1], tf[2], depth + 1))
             continue
         through = _arms_through_try(pv, payload, dbb, didx, depth) if didx != "term" else None
         if through is not None:
@@ -111,6 +135,9 @@ def _def_stmts(pv, op, bb, idx, depth=0):
             out.extend(_def_stmts(pv, payload["op"], dbb, didx, depth + 1))
         elif didx == "term":
             out.append((pv.def_term(di), dbb, None))
+        elif _through_tuple_field(pv, payload, dbb, didx) is not None:
+            tf = _through_tuple_field(pv, payload, dbb, didx)
+            out.extend(_def_stmts(pv, tf[0], tf[1], tf[2], depth + 1))
         else:
             payload["_at"] = (dbb, didx)
             out.append((pv.def_term(di), dbb, payload))
@@ -193,6 +220,23 @@ class OkAggregate:
             return
         o = oks[0]
         self.outcome = o
+        self._terms = None
+        if o["idx"] == "term":
+            # `decode(..).map(Self)` / `.map(|x| Self {..})`: the Ok value is the reduction of a combinator call - a term, not a
+            # statement; its fields are kept as terms
+            inner = o.get("inner")
+            if not (inner and inner[0] == "aggr" and inner[1] not in ("core::option::Option", "core::result::Result")):
+                self.problem = "Ok payload is not a struct/enum literal"
+                self.payload_def = None
+                return
+            self.rv = None
+            self.adt, self.variant = inner[1], inner[2]
+            self.bb, self.idx = o["bb"], "term"
+            self._terms = {}
+            for name, t in inner[3]:
+                self._terms[name] = t
+                self.fields[name] = (None, o["bb"], "term")
+            return
         st = fn.blocks[o["bb"]]["stmts"][o["idx"]]
         okop = st["rv"]["ops"][0]
         d = find_def_stmt(self.pv, okop, o["bb"], o["idx"])
@@ -215,10 +259,14 @@ class OkAggregate:
             self.fields[name] = (op, bb, idx)
 
     def term(self, name):
+        if self._terms is not None:
+            return self._terms[name]
         op, bb, idx = self.fields[name]
         return self.pv.operand_term(op, bb, idx)
 
     def arms(self, name):
+        if self._terms is not None:
+            return [(self._terms[name], self.bb)]
         op, bb, idx = self.fields[name]
         return arms(self.pv, op, bb, idx)
 
@@ -620,6 +668,11 @@ def apply_fn(prog, fterm, args):
         names = prog.enums.get(adt)
         if names and var in names.values():
             return ("aggr", adt, var, tuple((str(i), a) for i, a in enumerate(args)))
+        a = prog.adts.get(fterm[2])
+        if a and a.get("kind") == "struct" and len(a.get("variants", [])) == 1 \
+                and [fd["name"] for fd in a["variants"][0]["fields"]] == [str(i) for i in range(len(args))]:
+            # a tuple struct's constructor used as a function value: `r.map(Self)`
+            return ("aggr", fterm[2], fterm[2].rpartition("::")[2], tuple((str(i), x) for i, x in enumerate(args)))
         if fterm[2] in prog.fns or fterm[2].startswith("<"):
             # a named crate function used as a function value (`o.map(Value::try_as_bytes)`): the call it stands for
             return ("call", fterm[2], tuple(args), ("<fn-item>", fterm[1]))
